@@ -661,7 +661,11 @@ edn_value_t* edn_read_number(edn_parser_t* parser) {
             /* Parse radix value */
             int radix_val = 0;
             for (const char* p = parser->current; p < r_pos; p++) {
-                radix_val = radix_val * 10 + (*p - '0');
+                /* Saturate: any value above 36 is rejected below, and a long
+                 * digit run must not overflow the int. */
+                if (radix_val <= 36) {
+                    radix_val = radix_val * 10 + (*p - '0');
+                }
             }
 
             if (radix_val >= 2 && radix_val <= 36) {
